@@ -266,6 +266,27 @@ Definition add_mm (gm : list (option val)) (st : option val) (b : blk) : blk * b
   let b' := mkBlk earliest (b_bpi b) (b_bp b) (with_stats (b_stats b) st) tb (b_qrs b) (b_aecs b) mms in
   (b', blk_full b').
 
+(* ---------- the application's direct interface (C02: "blocks the application builds directly"): table entries through the nine
+   add_* functions ([add_to]), items whose indices the application obtained from those calls ----------
+   add_question_response_record(const QueryResponse&) / add_malformed_message(const MalformedMessage&): nothing happens to an item
+   with no member set; otherwise the earliest-time rule, push, statistics *)
+Definition add_qr_item (item : list (option val)) (st : option val) (b : blk) : blk * bool :=
+  if filled item then
+    let b' := mkBlk (upd_earliest b (nth_o item 0%nat)) (b_bpi b) (b_bp b) (with_stats (b_stats b) st) (b_tb b)
+                    (b_qrs b ++ [VR item]) (b_aecs b) (b_mms b) in (b', blk_full b')
+  else (b, blk_full b).
+Definition add_mm_item (item : list (option val)) (st : option val) (b : blk) : blk * bool :=
+  if filled item then
+    let b' := mkBlk (upd_earliest b (nth_o item 0%nat)) (b_bpi b) (b_bp b) (with_stats (b_stats b) st) (b_tb b)
+                    (b_qrs b) (b_aecs b) (b_mms b ++ [VR item]) in (b', blk_full b')
+  else (b, blk_full b).
+(* add_address_event_count(const AddressEventCount&): key = [type; code; address index; transport flags], the count is the map's *)
+Definition add_aec_item (key : list (option val)) (st : option val) (b : blk) : blk * bool :=
+  if negb (N.testbit (h_other (b_bp b)) 1) then (b, false) else
+  let k := VR [nth_o key 0%nat; nth_o key 1%nat; nth_o key 2%nat; nth_o key 3%nat; Some (VN 0)] in
+  let b' := mkBlk (b_earliest b) (b_bpi b) (b_bp b) (with_stats (b_stats b) st) (b_tb b) (b_qrs b) (aec_bump (b_aecs b) k) (b_mms b) in
+  (b', blk_full b').
+
 (* ---------- the value CdnsBlock::write serialises ---------- *)
 Definition to_u64 (z : Z) : N := Z.to_N (z mod Z.of_N two64).
 (* time offset of a stored record time from the block's earliest time, as enc.write(static_cast<uint64_t>(..)) sees it *)
